@@ -220,13 +220,14 @@ with SqliteImpl.impl_store.impl_manager as impl:
     def _floor(x):
         return -sqa.func.ceil(-x)
 
+    # SQLite cannot store NaN (it becomes NULL), so a non-null value is never NaN.
     @impl(ops.is_nan)
     def _is_nan(x):
-        return False
+        return sqa.case((x.is_(None), None), else_=sqa.false())
 
     @impl(ops.is_not_nan)
     def _is_not_nan(x):
-        return True
+        return sqa.case((x.is_(None), None), else_=sqa.true())
 
     @impl(ops.cbrt)
     def _cbrt(x):
